@@ -119,7 +119,7 @@ def targets(tier):
                    ensures=[("reply-is-accumulated-nothing-lost", ens_reply)], exc_ensures=[("blocker-re-raised", exc_reply)], raises=(CompileError, AssertionError, KeyError),
                    overrides=OV, field_types=FT,
                    note="ModuleResult and SCC objects are abstract identities; AssertionError: message shape is the worker's obligation; KeyError: scc ids are the coordinator's own"),
-            __import__("pyvc.runner", fromlist=["StaticCheck"]).StaticCheck("worker.replay_context", check_replay_context, note="ordering frame decided on the source")] + iface_targets() + impl_targets() + reload_targets() + budget_targets() + load_states_targets()
+            __import__("pyvc.runner", fromlist=["StaticCheck"]).StaticCheck("worker.replay_context", check_replay_context, note="ordering frame decided on the source")] + iface_targets() + impl_targets() + reload_targets() + budget_targets() + load_states_targets() + serve_targets()
 
 
 # ---- every module of an SCC goes on from the interface phase to the implementation phase: the list
@@ -413,3 +413,52 @@ def load_states_targets():
     return [Target("worker.load_states.imports_ignored_recomputed", "mypy.build_worker.worker:load_states", setup_load_states_iter,
                    loop_body=("for id in mod_ids", "import_lines = {imp.line for imp in state.tree.imports}"), ensures=[("imports-ignored-recomputed-for-every-module", ens_load_states_iter)],
                    raises=(), overrides={"contracts.coord:FakeErrors6.set_file": noop, "contracts.coord:FakeErrors6.add_error_info": noop}, field_types={}, note="one generic module, with and without import errors to replay; the tree has no imports here (only THAT the field is recomputed is decided, not its value)")]
+
+
+# ---- the worker handles every SCC of a request with the coordinator's own view of which modules came from
+# the cache (process_stale_scc_interface verifies the suppressed dependencies of exactly those): the set is
+# passed on as received, not narrowed by what happens to be replayed
+
+
+class FakeGraphData:
+    pass
+
+
+def setup_serve_scc(I):
+    gd = I.new_object(FakeGraphData)
+    fc = I.make(TSet(TStr()), "from_cache")
+    gd.fields["from_cache"] = fc
+    msg = I.new_object(FakeGraphData)
+    msg.fields["import_errors"] = I.make(TMap(TStr(), TInt()), "import_errors")
+    return {"args": [], "locals": {"scc": SOpaque("scc"), "graph": SOpaque("graph"), "manager": I.new_object(FakeManagerC), "graph_data": gd, "scc_message": msg, "results": SList([])},
+            "fc": fc}
+
+
+class FakeManagerC:
+    def commit(self):
+        raise NotImplementedError
+
+
+def ens_serve_scc(I, env, res):
+    ev = [e for e in I.ctx.events if e[0] == "process_stale_scc_interface"]
+    if len(ev) != 1:
+        return z3.BoolVal(False)
+    fc = ev[0][1].get("from_cache")
+    if not isinstance(fc, ZVal):
+        return z3.BoolVal(False)
+    x = z3.Const("fc_x", StrS)
+    return z3.ForAll([x], z3.Select(fc.t, x) == z3.Select(env["fc"].t, x))
+
+
+def serve_targets():
+    def psi(I, a, k):
+        kw = dict(k)
+        if "from_cache" not in kw and len(a) >= 4:
+            kw["from_cache"] = a[3]
+        I.ctx.events.append(("process_stale_scc_interface", kw))
+        return SList([])
+
+    ov = {"mypy.build:process_stale_scc_interface": psi, "mypy.build_worker.worker:process_stale_scc_interface": psi, "contracts.coord:FakeManagerC.commit": noop}
+    return [Target("worker.serve.from_cache_passed_on", "mypy.build_worker.worker:serve", setup_serve_scc, loop_body=("for scc in sccs", "scc_result = process_stale_scc_interface("),
+                   ensures=[("interface-phase-gets-the-coordinators-from-cache-set", ens_serve_scc)], raises=(), overrides=ov, field_types={},
+                   note="one generic SCC of a request")]
